@@ -1,6 +1,6 @@
 HOOK_COMMITS = ['f1571dc', '04e6a20', 'ab40d75', '0b4062a']
 # properties whose check exists but whose theorems are still being proved: not claimed yet
-PENDING = {"C18"}
+PENDING = set()
 NOT_YET = {}
 TEXT = {
     "C17": {
